@@ -54,7 +54,7 @@ def plan(tier, seed):
               {"kind": "merkle", "upto": 400 if q else 2100, "label": "merkle"},
               {"kind": "cve", "upto": 40 if q else 140, "label": "cve"}]
     for p in range(N_PROOF_SHARDS):
-        shards.append({"kind": "proofs", "part": p, "parts": N_PROOF_SHARDS, "sampled": 96 if q else 2000,
+        shards.append({"kind": "proofs", "part": p, "parts": N_PROOF_SHARDS, "sampled": 96 if q else 8000,
                        "label": "proofs-%d" % p})
     return shards
 
